@@ -27,7 +27,13 @@ def keys_of(h):
     wm = dict(h["wmodel"])
     store = {w: "mono" for w in wm}
     keys = []
+    expreq = {}
     for e in h["steps"]:
+        if e["op"] == "expset":
+            expreq.setdefault((e["m"], e["q"]), {"mono"}).add(e["r"])
+        elif e["op"] == "exptheory":
+            # every request this Experiment has been given so far; which one must be returned is the specification's call
+            keys += ["ex|%s|%s|%s" % (e["m"], e["q"], r) for r in sorted(expreq.setdefault((e["m"], e["q"]), {"mono"}))]
         if e["op"] == "call":
             keys.append("%s|%s|%s|%s" % ("fq" if e["f"] else "iq", e["m"], e["q"], e["r"]))
         elif e["op"] == "direct":
@@ -67,6 +73,14 @@ def run(chk, args):
     if w2["violated"] != "HeldStable":
         raise vlib.Machinery("vacuity control: History_view (kernel returns a view of its buffer) should violate HeldStable")
     chk.notes["vacuity_control_view"] = "History_view.cfg violates HeldStable as it must"
+    r3 = vlib.tlc_must_pass("History", "History_exp.cfg", timeout=1800)
+    chk.add_tlc(r3, "History with Experiment objects (lazy theory / update protocol)")
+    if r3["violated"]:
+        chk.design_violation(r3, "History", {"class": "design-exp"})
+    w3 = vlib.tlc("History", "History_expStale.cfg", timeout=600)
+    if w3["violated"] != "Purity":
+        raise vlib.Machinery("vacuity control: History_expStale (update() keeps the cached theory) should violate Purity")
+    chk.notes["vacuity_control_exp"] = "History_expStale.cfg violates Purity as it must"
 
     if args.replay:
         hs = [json.load(open(args.replay))["detail"]["scenario"]]
@@ -79,6 +93,16 @@ def run(chk, args):
         hs = vlib.parse_printed(g["out"], "BEHAVIOUR")[:n]
         if not hs:
             raise vlib.Machinery("HistoryGen produced no behaviour")
+        # histories over few objects, so that operations on the same Experiment / kernel / wrapper follow each other
+        n2 = 120 if thorough else 12
+        g2 = vlib.tlc("HistoryGen", "HistoryGenExp.cfg", workers=1, simulate="num=%d" % n2, depth=41,
+                      seed=chk.seed + 7, timeout=900)
+        if not g2["ok"]:
+            raise vlib.Machinery("HistoryGen (few objects) failed: %s\n%s" % (g2["error"], g2["out"][-1500:]))
+        hs += vlib.parse_printed(g2["out"], "BEHAVIOUR")[:n2]
+    for h in hs:
+        for w in ("w1", "w2"):              # the trace module's wrapper set; unused wrappers get a default model
+            h["wmodel"].setdefault(w, "sphere")
     work = vlib.scratch("c11")
     try:
         cache = os.path.join(work, "cache")
@@ -122,14 +146,14 @@ def run(chk, args):
             chk.violation({"clause": "process-died", "rc": rc}, {"scenario": hs[tid - 1], "stderr": err})
         for h in hs:
             ops = [e["op"] for e in h["steps"]]
-            chk.case(h, nontrivial=ops.count("call") + ops.count("eval") >= 5,
+            chk.case(h, nontrivial=ops.count("call") + ops.count("eval") + ops.count("direct") + ops.count("exptheory") >= 5,
                      sample={"ops": ["%s(%s)" % (e["op"], ",".join(str(e[k]) for k in ("s", "m", "q", "r", "w", "w2") if e[k] != ""))
                                      for e in h["steps"][:14]], "wrappers": h["wmodel"]})
     finally:
         shutil.rmtree(work, ignore_errors=True)
     chk.cov["rule"] = (
         "TLC-simulated histories (40 operations: make_kernel, call_kernel, call_Fq, release, model release, "
-        "SasviewModel setParam/evalDistribution/clone) over sphere, cylinder, broad_peak (pure Python), "
+        "SasviewModel setParam/evalDistribution/clone, DirectModel calls, reload, bumps Experiment set values/update/theory) over sphere, cylinder, broad_peak (pure Python), "
         "sphere@hardsphere, sphere+cylinder with 3 q vectors (incl. 2-D) and 6 request kinds (mono, dispersed, "
         "two dispersed + cutoff, empty mesh, effective-radius mode, magnetic); each evaluating step compared "
         "bit-for-bit with a fresh-interpreter oracle. Non-trivial: at least 5 evaluating operations.")
